@@ -25,6 +25,7 @@ func checkC02(p *Program, r *Result) {
 		"(C02.o) a chunk slot's buffer owns its bytes (never a view of the shared read buffer); (C02.b) both iterators bind message, channel and schema by id (C01.d)."
 	r.NotDecided = []string{"element-wise equality of the indexed and sequential sequences (run-time)", "order of file-order reads"}
 	r.rule("C02.a", "silently skipped tables are consulted by the index gate", 1)
+	r.rule("C02.q", "every way the index gate says yes (with chunk indexes present) has tested each silently skipped table", 1)
 	r.rule("C02.c", "metadata callback invoked for every (indexed) metadata record", 2)
 	r.rule("C02.d", "random-access offset conventions", 2)
 	r.rule("C02.e", "indexed iterator only behind a true gate", 1)
@@ -203,6 +204,15 @@ func checkIndexGate(p *Program, r *Result) {
 		}
 		if gateReads[inf] {
 			r.held("C02.a", funcName(gate), construct, p.pos(gate.Pos()), "messages whose "+t+" entry is missing are skipped silently ("+silent[t]+"), and the gate requires the table")
+			// ... and requires it on every way of saying yes: a path to `true` (with chunk indexes present) that never tests
+			// the table admits a summary without those records
+			if at := gateYesWithoutTest(p, gate, inf); at != nil {
+				r.violated("C02.q", funcName(gate), "every 'yes' of the gate has tested Info."+inf, p.pos(at.Pos()),
+					"the predicate that allows index-based reading can answer yes, for a file that has chunk indexes, on a path that never tests Info."+inf+
+						" (a loop over entries that may be empty is not a test); the index-based path silently skips messages whose "+t+" entry is missing ("+silent[t]+"), so such a file reads as empty instead of falling back to a scan")
+			} else {
+				r.held("C02.q", funcName(gate), "every 'yes' of the gate has tested Info."+inf, p.pos(gate.Pos()), "no path to a true result avoids a test of the table")
+			}
 		} else {
 			r.violated("C02.a", funcName(gate), "gate does not consult Info."+inf, p.pos(gate.Pos()),
 				"the index-based path silently skips messages whose entry is missing from it."+t+" ("+silent[t]+"), but the predicate that allows index-based reading never looks at Info."+inf+
@@ -458,4 +468,172 @@ func checkFallbackShape(p *Program, r *Result) {
 		}
 	}
 	_ = strings.TrimSpace
+}
+
+// gateYesWithoutTest: a return of the gate that can yield true, with chunk indexes present, on a path along which no
+// branch condition (and not the returned value itself) depends on Info.<field>. nil if there is none.
+func gateYesWithoutTest(p *Program, gate *ssa.Function, field string) ssa.Instruction {
+	var depends func(v ssa.Value, depth int, seen map[ssa.Value]bool) bool
+	depends = func(v ssa.Value, depth int, seen map[ssa.Value]bool) bool {
+		if v == nil || depth > 12 || seen[v] {
+			return false
+		}
+		seen[v] = true
+		switch x := v.(type) {
+		case *ssa.UnOp:
+			if x.Op == token.MUL {
+				if tn, f, _, ok := fieldRef(x.X); ok && tn == "Info" && f == field {
+					return true
+				}
+			}
+			return depends(x.X, depth+1, seen)
+		case *ssa.BinOp:
+			return depends(x.X, depth+1, seen) || depends(x.Y, depth+1, seen)
+		case *ssa.Convert:
+			return depends(x.X, depth+1, seen)
+		case *ssa.ChangeType:
+			return depends(x.X, depth+1, seen)
+		case *ssa.Extract:
+			return depends(x.Tuple, depth+1, seen)
+		case *ssa.Lookup:
+			return depends(x.X, depth+1, seen)
+		case *ssa.Index:
+			return depends(x.X, depth+1, seen)
+		case *ssa.IndexAddr:
+			return depends(x.X, depth+1, seen)
+		case *ssa.FieldAddr:
+			return depends(x.X, depth+1, seen)
+		case *ssa.Field:
+			return depends(x.X, depth+1, seen)
+		case *ssa.Phi:
+			for _, e := range x.Edges {
+				if depends(e, depth+1, seen) {
+					return true
+				}
+			}
+		case *ssa.Call:
+			for _, a := range x.Call.Args {
+				if depends(a, depth+1, seen) {
+					return true
+				}
+			}
+			// a predicate of the package that looks at the table itself
+			if g := x.Call.StaticCallee(); g != nil && g.Blocks != nil && p.isRepoFunc(g) {
+				for _, in := range instrsOf(g) {
+					if u, ok := in.(*ssa.UnOp); ok && u.Op == token.MUL {
+						if tn, f, _, ok := fieldRef(u.X); ok && tn == "Info" && f == field {
+							return true
+						}
+					}
+				}
+			}
+		}
+		return false
+	}
+	dep := func(v ssa.Value) bool { return depends(v, 0, map[ssa.Value]bool{}) }
+	// successor on which the chunk index list is known to be empty
+	emptySide := func(b *ssa.BasicBlock) *ssa.BasicBlock {
+		iff, ok := b.Instrs[len(b.Instrs)-1].(*ssa.If)
+		if !ok {
+			return nil
+		}
+		c, ok := iff.Cond.(*ssa.BinOp)
+		if !ok {
+			return nil
+		}
+		isLen := func(v ssa.Value) bool {
+			call, ok := stripConv(v).(*ssa.Call)
+			if !ok {
+				return false
+			}
+			bi, ok := call.Call.Value.(*ssa.Builtin)
+			return ok && bi.Name() == "len" && loadOfField(call.Call.Args[0], "Info", "ChunkIndexes")
+		}
+		konst := func(v ssa.Value) (int64, bool) {
+			k, ok := v.(*ssa.Const)
+			if !ok || k.Value == nil {
+				return 0, false
+			}
+			return k.Int64(), true
+		}
+		op := c.Op
+		var k int64
+		switch {
+		case isLen(c.X):
+			v, ok := konst(c.Y)
+			if !ok {
+				return nil
+			}
+			k = v
+		case isLen(c.Y):
+			v, ok := konst(c.X)
+			if !ok {
+				return nil
+			}
+			k = v
+			op = map[token.Token]token.Token{token.LSS: token.GTR, token.GTR: token.LSS, token.LEQ: token.GEQ, token.GEQ: token.LEQ, token.EQL: token.EQL, token.NEQ: token.NEQ}[op]
+		default:
+			return nil
+		}
+		switch {
+		case op == token.EQL && k == 0, op == token.LSS && k == 1, op == token.LEQ && k == 0:
+			return b.Succs[0]
+		case op == token.NEQ && k == 0, op == token.GTR && k == 0, op == token.GEQ && k == 1:
+			return b.Succs[1]
+		}
+		return nil
+	}
+	// blocks reachable from the entry without passing a test of the table and without entering the empty side
+	reach := map[*ssa.BasicBlock]bool{}
+	var walk func(b *ssa.BasicBlock)
+	walk = func(b *ssa.BasicBlock) {
+		if reach[b] {
+			return
+		}
+		reach[b] = true
+		if iff, ok := b.Instrs[len(b.Instrs)-1].(*ssa.If); ok && dep(iff.Cond) {
+			return
+		}
+		es := emptySide(b)
+		for _, s := range b.Succs {
+			if s != es {
+				walk(s)
+			}
+		}
+	}
+	if len(gate.Blocks) == 0 {
+		return nil
+	}
+	walk(gate.Blocks[0])
+	var offender ssa.Instruction
+	var classify func(v ssa.Value, at *ssa.BasicBlock, ret ssa.Instruction, depth int)
+	classify = func(v ssa.Value, at *ssa.BasicBlock, ret ssa.Instruction, depth int) {
+		if offender != nil || depth > 6 {
+			return
+		}
+		if k, ok := v.(*ssa.Const); ok {
+			if k.Value != nil && k.Value.String() == "true" && reach[at] {
+				offender = ret
+			}
+			return
+		}
+		if dep(v) {
+			return
+		}
+		if phi, ok := v.(*ssa.Phi); ok {
+			for i, e := range phi.Edges {
+				classify(e, phi.Block().Preds[i], ret, depth+1)
+			}
+			return
+		}
+		if reach[at] {
+			offender = ret
+		}
+	}
+	for _, in := range instrsOf(gate) {
+		if ret, ok := in.(*ssa.Return); ok && len(ret.Results) == 1 {
+			classify(ret.Results[0], ret.Block(), ret, 0)
+		}
+	}
+	return offender
 }
